@@ -1,6 +1,7 @@
 package main
 
 import (
+	"math/big"
 	"encoding/hex"
 	"fmt"
 	"sort"
@@ -97,12 +98,28 @@ func c02Res(msg string) (string, string) {
 }
 
 // c02RunSys executes one history of signed requests on a fresh world.
-func c02RunSys(c *Ctx, reqs []c02Req) error {
+func c02RunSys(c *Ctx, reqs []c02Req, legacy map[int]uint64) error {
 	w := NewWorld()
 	if _, err := w.AddToken("TT", ChanOpts{}); err != nil {
 		return err
 	}
 	senders := []*Account{w.NewAccount(fpb.KeyType_ed25519), w.NewAccount(fpb.KeyType_ed25519), w.NewAccount(fpb.KeyType_ed25519)}
+	// nonce records in the old format: the raw big-endian bytes of the newest accepted nonce
+	var legItems []string
+	for si := 0; si < len(senders); si++ {
+		l, ok := legacy[si]
+		if !ok {
+			continue
+		}
+		raw := new(big.Int).SetUint64(l).Bytes()
+		for proto.Unmarshal(raw, new(fpb.Nonce)) == nil { // (a number whose bytes happen to be a well-formed message would be read as one)
+			l++
+			raw = new(big.Int).SetUint64(l).Bytes()
+		}
+		key, _ := w.Peer.newStub(w.Peer.Channels["tt"], "", nil, nil).CreateCompositeKey(hex.EncodeToString([]byte{core.StateKeyNonce}), []string{senders[si].AddrString()})
+		w.Peer.Channels["tt"].State[key] = raw
+		legItems = append(legItems, fmt.Sprintf("(%d, %d)", si, l))
+	}
 	obs := make([]string, len(reqs))
 	cls := make([]string, len(reqs))
 	i := 0
@@ -133,8 +150,14 @@ func c02RunSys(c *Ctx, reqs []c02Req) error {
 		} else {
 			var tasks []*fpb.Task
 			for _, r := range group {
-				args := w.SignedArgs("tt", "script", senders[r.Sender], strconv.FormatUint(r.Nonce, 10), script(r))
-				tasks = append(tasks, &fpb.Task{Id: w.Peer.NextTxID(), Method: "script", Args: args})
+				// a batched transaction method or a method executed without batching (NBTx): as tasks both consume their nonce
+				fn := "script"
+				if (r.Nonce+uint64(r.Sender))%3 == 0 {
+					fn = "nbScript"
+					c.Count("sys_task_of_nonbatched_method")
+				}
+				args := w.SignedArgs("tt", fn, senders[r.Sender], strconv.FormatUint(r.Nonce, 10), script(r))
+				tasks = append(tasks, &fpb.Task{Id: w.Peer.NextTxID(), Method: fn, Args: args})
 			}
 			out = w.ExecTasks("tt", w.Robot.Creator, tasks)
 		}
@@ -158,7 +181,10 @@ func c02RunSys(c *Ctx, reqs []c02Req) error {
 		}
 		var n fpb.Nonce
 		if err := proto.Unmarshal(data, &n); err != nil {
-			return err
+			if _, isLegacy := legacy[si]; !isLegacy {
+				return err
+			}
+			n = fpb.Nonce{Nonce: []uint64{new(big.Int).SetBytes(data).Uint64()}} // still the old record: nothing was accepted
 		}
 		final[si] = n.GetNonce()
 		finItems = append(finItems, fmt.Sprintf("(%d, %s)", si, coqNList(n.GetNonce())))
@@ -180,6 +206,11 @@ func c02RunSys(c *Ctx, reqs []c02Req) error {
 		seen[id] = true
 	}
 	term := fmt.Sprintf("CSys %s %s %s", coqList(rs), coqList(obs), coqList(finItems))
+	if len(legItems) > 0 {
+		term = fmt.Sprintf("CSysL %s %s %s %s", coqList(legItems), coqList(rs), coqList(obs), coqList(finItems))
+		c.Count("system_history_with_legacy_nonce_records")
+		nontrivial = true
+	}
 	if strings.Contains(term, "RUNEXPECTED") {
 		c.Count("sys_unexpected_class")
 	}
@@ -189,7 +220,7 @@ func c02RunSys(c *Ctx, reqs []c02Req) error {
 }
 
 func genC02(c *Ctx) error {
-	c.Notes["rule"] = "direct: all sequences up to the given length over 11 boundary values (offsets 0,+-1, ttl-1, ttl, ttl+1 above and below, 12/14 digits) fed to setNonce from the empty window, plus random clustered sequences; system: histories of signed requests of 3 senders through batchExecute and executeTasks with chosen nonces, replays and failing bodies. Non-trivial: at least one accept and one reject (direct) / at least one replayed (sender, nonce) pair (system)."
+	c.Notes["rule"] = "(system histories: a quarter start with one or two senders whose nonce record is still in the old one-number format, which is also replayed; tasks call batched and non-batched methods) direct: all sequences up to the given length over 11 boundary values (offsets 0,+-1, ttl-1, ttl, ttl+1 above and below, 12/14 digits) fed to setNonce from the empty window, plus random clustered sequences; system: histories of signed requests of 3 senders through batchExecute and executeTasks with chosen nonces, replays and failing bodies. Non-trivial: at least one accept and one reject (direct) / at least one replayed (sender, nonce) pair (system)."
 	B := c02Base
 	vals := []uint64{B, B + 1, B - 1, B + c02TTL - 1, B + c02TTL, B + c02TTL + 1,
 		B - (c02TTL - 1), B - c02TTL, B - (c02TTL + 1), 999999999999, 10000000000000}
@@ -295,7 +326,21 @@ func genC02(c *Ctx) error {
 			}
 			group++
 		}
-		if err := c02RunSys(c, reqs); err != nil {
+		var legacy map[int]uint64
+		if i%4 == 3 {
+			// one or two senders still have their nonce record in the old format, a little above or below the requests to come
+			legacy = map[int]uint64{}
+			for k := 1 + c.Rng.Intn(2); k > 0; k-- {
+				legacy[c.Rng.Intn(3)] = uint64(int64(B) + c.Rng.Int63n(80000) - 20000)
+			}
+			if len(reqs) > 2 && c.Rng.Intn(2) == 0 {
+				for si, l := range legacy { // the recorded nonce itself is replayed
+					reqs[1+c.Rng.Intn(len(reqs)-1)] = c02Req{Route: reqs[1].Route, Sender: si, Nonce: l, BodyOK: true, Group: reqs[1].Group}
+					break
+				}
+			}
+		}
+		if err := c02RunSys(c, reqs, legacy); err != nil {
 			return err
 		}
 	}
